@@ -160,6 +160,56 @@ def gen_case(rng, exit_code=None, fn=None, good_cmd=False, signals=(9,)):
     return c
 
 
+GROUP_FNS = [("Run", "nil", "nil"), ("RunWith", "nil", "nil"), ("Output", "nil", "nil"), ("OutputWith", "nil", "nil"),
+             ("Exec", "buf", "nil"), ("Exec", "nil", "nil"), ("Exec", "buf", "buf")]
+GROUP_FIXED = [
+    # (inherited C15_A, [(fn index, env map or None)], plan)
+    ("inherited", [(1, [["C15_A", "from A"]]), (0, None)], ["s0", "s1", "r0", "r1"]),           # B (no map) starts while A is in flight
+    ("inherited", [(1, [["C15_A", "from A"]]), (2, None)], ["s0", "s1", "r1", "r0"]),
+    (None, [(3, [["C15_A", "from A"]]), (2, None)], ["s0", "s1", "r0", "r1"]),                  # the variable is not inherited at all
+    ("inherited", [(3, [["C15_A", "from A"]]), (4, [["C15_A", "from B"]])], ["s0", "s1", "r0", "r1"]),   # same key, A ends first
+    ("inherited", [(4, [["C15_A", "from A"]]), (1, [["C15_A", "from B"]])], ["s0", "s1", "r1", "r0"]),   # nested
+    ("inherited", [(0, None), (3, [["C15_A", "from B"]])], ["s0", "s1", "r0", "r1"]),           # the call without a map started first
+    ("", [(1, [["C15_A", "from A"]]), (3, [["C15_A", ""], ["C15_B", "b of B"]]), (2, None)], ["s0", "s1", "s2", "r0", "r1", "r2"]),
+    ("inherited", [(6, [["C15_A", "from A"]]), (5, []), (4, [["C15_A", "from C"]])], ["s0", "s1", "s2", "r2", "r0", "r1"]),
+]
+
+
+def gen_group(rng, fixed=None):
+    """overlapping sh calls: every child reports its environment and argv and then stays in flight until released"""
+    if fixed is not None:
+        inh, members, plan = fixed
+        inherit = ([["C15_A", inh]] if inh is not None else []) + [["C15_B", "b inherited"]]
+        spec = [(GROUP_FNS[fi], (None if m is None else [list(kv) for kv in m])) for fi, m in members]
+    else:
+        n = rng.choice([2, 2, 3])
+        inherit = [[k, rng.choice(VALS[:8])] for k in ("C15_A", "C15_B", "C15_C") if rng.random() < 0.6]
+        spec = []
+        for i in range(n):
+            f = rng.choice(GROUP_FNS)
+            r = rng.random()
+            m = None if r < 0.25 else ([] if r < 0.35 else [[k, "%s of call %d" % (rng.choice(MAPVALS), i)] for k in ("C15_A", "C15_B", "C15_C") if rng.random() < 0.6])
+            spec.append((f, m))
+        starts = list(range(n)); rng.shuffle(starts)
+        rel = list(range(n)); rng.shuffle(rel)
+        plan = ["s%d" % i for i in starts] + ["r%d" % i for i in rel]
+    calls = []
+    for i, ((fn, so, se), m) in enumerate(spec):
+        calls.append({"fn": fn, "so": so, "se": se, "env": m, "cmd": "@BIN@",
+                      "args": ["call%d" % i, rng.choice(["$C15_A", "${C15_A}", "[$C15_A|$C15_B]", "$C15_B$C15_C", "lit"]), "${C15_B}"],
+                      "exit": rng.choice([0, 0, 3, 7, 255]), "out": "out of call %d\n" % i})
+    return {"group": True, "inherit": inherit, "order": plan, "calls": calls}
+
+
+def group_member(c, i, dump, hold):
+    """member i of a group as an ordinary single call (what the oracle and the model judge)"""
+    m = c["calls"][i]
+    return {"fn": m["fn"], "so": m["so"], "se": m["se"], "env": m["env"], "cmd": m["cmd"],
+            "args": m["args"] + ["--c15-exit=%d" % m["exit"], "--c15-out=" + HX(m["out"]), "--c15-dump=" + dump, "--c15-hold=" + hold],
+            "exit": m["exit"], "sig": 0, "out": m["out"], "err": "", "stdin": "", "via_map": False, "verbose": None,
+            "inherit": c["inherit"], "member_of_group": i}
+
+
 def gen_raw(rng, quick, signals=(9,)):
     out = []
     for k in range(256):
@@ -220,6 +270,21 @@ class World:
 
 def make_request(w, c, workdir, idx):
     dump = os.path.join(workdir, "d%d" % idx)
+    if c.get("group"):
+        setenv = {k: w.subst(v) for k, v in c["inherit"]}
+        calls, members = [], []
+        for i in range(len(c["calls"])):
+            di, hi = "%s.%d" % (dump, i), "%s.%d.go" % (dump, i)
+            mc = group_member(c, i, di, hi)
+            uses = mc["fn"] in WITH_ENV
+            sub = {"fn": mc["fn"], "cmd": HX(w.subst(mc["cmd"])), "args": [HX(x) for x in mc["args"]], "so": mc["so"], "se": mc["se"],
+                   "dump": di, "hold": hi}
+            if uses and mc["env"] is not None:
+                sub["env"] = {HX(k): HX(v) for k, v in mc["env"]}
+            calls.append(sub)
+            members.append((mc, [list(kv) for kv in mc["env"]] if (uses and mc["env"] is not None) else None))
+        return {"op": "sh", "raw": {"fn": "group", "calls": calls, "plan": c["order"], "setenv": {HX(k): HX(v) for k, v in setenv.items()},
+                                    "tmp": workdir}}, setenv, members
     if c.get("raw"):
         se = {}
         if c["kind"] == "child":
@@ -415,7 +480,7 @@ def oracle(w, c, a, setenv, envm):
             diff = {kk: (got.get(kk), want.get(kk)) for kk in set(got) | set(want) if got.get(kk) != want.get(kk)}
             bad.append("child environment differs (got, expected): %r" % diff)
         # stdin is the caller's
-        if d["stdin_sha"] != hashlib.sha256(B(c["stdin"])).hexdigest():
+        if d["stdin_sha"] != hashlib.sha256(B(c["stdin"])).hexdigest() and "member_of_group" not in c:
             bad.append("the child did not read the caller's stdin (%d bytes read, %d given)" % (d["stdin_len"], len(c["stdin"])))
     # Output: exactly one trailing newline removed
     text = unhex(a["text"])
@@ -629,6 +694,11 @@ def run(ctx):
             if ("1048576" in plan or "262144" in plan):
                 c["streams"] = "file" if pi % 2 else "pipe"
             cases.append(c)
+    # CONCURRENT calls: pairs / triples of overlapping calls (the children stay in flight until released, in a scripted order)
+    for fx in GROUP_FIXED:
+        cases.append(gen_group(rng, fx))
+    for _ in range(16 if ctx.quick else 400):
+        cases.append(gen_group(rng))
     nrand = 300 if ctx.quick else 9000
     for _ in range(nrand):
         cases.append(gen_case(rng, signals=signals))
@@ -645,7 +715,7 @@ def run(ctx):
     codes_seen = set()
     shapes = {}
     cov_bg = [0]
-    n_args = n_args_decided = n_bad = n_oracle_only = 0
+    n_args = n_args_decided = n_bad = n_oracle_only = n_groups = n_group_calls = 0
     reported = {}
 
     def report(cl):
@@ -662,6 +732,29 @@ def run(ctx):
                     ctx.violation({"kind": "oracle", "clause": cl}, case=c)
             raw_items.append(raw_term(c, a))
             idx_raw.append(i)
+            continue
+        if c.get("group"):
+            # overlapping calls: every member is judged exactly like that call alone, against the process environment
+            # BEFORE the group; and the process environment afterwards is the one before
+            n_groups += 1
+            before, after = sorted(unhex(x) for x in a["environ"]), sorted(unhex(x) for x in a.get("environ_after") or [])
+            if before != after:
+                n_bad += 1
+                cl = "the process environment after the overlapping calls returned differs from before: %r" % sorted(set(before) ^ set(after))
+                if report(cl):
+                    ctx.violation({"kind": "oracle", "clause": cl, "order": c["order"]}, case=c)
+            for mi, ((mc, menvm), ma) in enumerate(zip(envm, a["group"])):
+                if ma.get("error"):
+                    raise BuildError("unitrun op sh (group): " + ma["error"])
+                ma = dict(ma, environ=a["environ"], os_stdout=a["os_stdout"], os_stderr=a["os_stderr"])
+                for cl in oracle(w, mc, ma, setenv, menvm)[:1]:
+                    n_bad += 1
+                    cl = "overlapping calls %s, call %d (%s, env map %r): %s" % (" ".join(c["order"]), mi, mc["fn"], mc["env"], cl)
+                    if report(cl):
+                        ctx.violation({"kind": "oracle", "clause": cl}, case=c)
+                items.append(case_term(w, mc, ma, menvm))
+                idx_call.append(i)
+                n_group_calls += 1
             continue
         for cl in oracle(w, c, a, setenv, envm)[:1]:
             n_bad += 1
@@ -738,8 +831,10 @@ def run(ctx):
     cov["calls_with_write_plan"] = sum(1 for c in cases if c.get("plan"))
     cov["calls_judged_by_oracle_only_too_large_for_coq"] = n_oracle_only
     cov["calls_with_streams_reassigned_to_pipes"] = sum(1 for c in cases if c.get("streams") == "pipe")
+    cov["groups_of_overlapping_calls"] = n_groups
+    cov["calls_in_groups"] = n_group_calls
     cov["signals_usable_here"] = signals
-    cov["calls_exec_with_failing_writer"] = sum(1 for c in cases if not c.get("raw") and c["fn"] == "Exec" and (wfail_n(c["so"]) is not None or wfail_n(c["se"]) is not None))
+    cov["calls_exec_with_failing_writer"] = sum(1 for c in cases if not c.get("raw") and not c.get("group") and c["fn"] == "Exec" and (wfail_n(c["so"]) is not None or wfail_n(c["se"]) is not None))
     cov["not_startable_shapes_observed_not_started"] = shapes
     cov["text_file_busy_effective_here"] = w.txtbsy_effective
     cov["verbose"] = verb
